@@ -113,6 +113,10 @@ def sympy_to_python_fn(
     unique_args: list[str] = []
     for i in args:
         name, n = i, 1
+        if i in ("math", "scipy"):
+            # would shadow the module the printed expression refers to
+            name = f"{i}_"
+            expr = cast(sympy.Expr, expr.subs(sympy.Symbol(i), sympy.Symbol(name)))
         while name in unique_args:
             name, n = f"{i}_{n}", n + 1
         unique_args.append(name)
